@@ -54,6 +54,9 @@ type gate struct {
 	state   int // once: 0 idle 1 running 2 done ; mutex: 0 free 1 write-held
 	owner   int
 	readers int
+	// writersWaiting models Go's RWMutex writer preference: while a Lock is
+	// pending, new RLock calls queue behind it (so a recursive RLock deadlocks).
+	writersWaiting int
 }
 
 type taskState struct {
@@ -432,8 +435,14 @@ func mutexHook(p unsafe.Pointer, kind int) {
 				gt.state, gt.owner = 1, t
 				return
 			}
+			gt.writersWaiting++
+			st.gateBlocks++
+			st.tasks[t].blockedOn = g + 1
+			blockOrFinish(t, false)
+			st.gates[g].writersWaiting--
+			continue
 		case 2: // RLock
-			if gt.state == 0 {
+			if gt.state == 0 && gt.writersWaiting == 0 {
 				gt.readers++
 				return
 			}
